@@ -400,6 +400,19 @@ static void runScenario(uint64_t caseNo, Rng & rng, const char * cfgName, bool o
 			}
 			count("fifo_checked_pairs", (uint64_t)sc.producers);
 		}
+		else if(sc.consumers == 1 && ! sc.selective && ordered) {
+			// ordered queue: events that compare equal keep their enqueue order - also when older ones were taken out and put back by
+			// processUntil while the producer went on enqueuing: per producer AND key, one consumer sees them in enqueue order
+			const int ctid = sc.producers + 1;
+			std::vector<int> last((size_t)sc.producers * 4, -1);
+			const std::vector<int> & o = S->order[ctid];
+			for(size_t i = 0; i < o.size(); ++i) {
+				const size_t slot = (size_t)(o[i] / 1000) * 4 + (size_t)Runner<Q>::keyOf(o[i]);
+				if((o[i] % 1000) < last[slot]) { violation("stability:equal-keys-of-one-producer-consumed-against-enqueue-order", "ordered queue, one consumer: event " + num(o[i]) + " (key " + num(Runner<Q>::keyOf(o[i])) + ") was consumed after a later event of the same producer with the same key"); break; }
+				last[slot] = o[i] % 1000;
+			}
+			count("stability_checked_producer_key_pairs", (uint64_t)sc.producers * 3);
+		}
 		else if(sc.consumers == 1 && ! sc.selective && heterSelective) {
 			// heterogeneous queue, predicates that accept every event of their prototype: within ONE prototype the events of one
 			// producer must still be consumed in enqueue order (events of other prototypes stay "in place")
